@@ -27,6 +27,9 @@ type Endpoint struct {
 	writeErr error
 	stalled  bool
 	name     string
+	// MaxRead, if > 0, caps the bytes one Read call returns (a transport that
+	// hands data over in segments).
+	MaxRead int
 }
 
 // NewEndpoint returns a new endpoint.
@@ -45,6 +48,9 @@ func (e *Endpoint) Read(p []byte) (int, error) {
 		e.cond.Wait()
 	}
 	if len(e.inbox) > 0 {
+		if e.MaxRead > 0 && len(p) > e.MaxRead {
+			p = p[:e.MaxRead]
+		}
 		n := copy(p, e.inbox)
 		e.inbox = e.inbox[n:]
 		return n, nil
